@@ -1,7 +1,7 @@
 (* Corechk.v — correspondence between the Layer-B machine and the recorded run of the real code.
    Core_corr compares, after every event of the recorded trace, the model's database with the
    snapshot of the real database, and monitors the environment assumptions (wf_trace). *)
-From Continuum Require Import Model.Base Model.VTable Model.Backfill Model.Core.
+From Continuum Require Import Model.Base Model.VTable Model.Backfill Model.Core Proofs.CoreChainP.
 
 Record snap := mksnap {
   sn_live : list lrow; sn_vt : vtable; sn_av : list arow; sn_alive : list (Z * list Z);
@@ -89,4 +89,5 @@ Fixpoint wf_trace (g : cfg) (s : state) (evs : list ev) : bool :=
 Definition Core_corr (c : core_case) : bool :=
   negb (cc_exc c) &&
   all3 state_matches (cc_evs c) (run_trace (cc_cfg c) state0 (cc_evs c)) (cc_snaps c) &&
-  wf_trace (cc_cfg c) state0 (cc_evs c).
+  wf_trace (cc_cfg c) state0 (cc_evs c) &&
+  cfg_consistentb (cc_cfg c).
